@@ -576,6 +576,66 @@ def run(chk):
     rule_enum_sequence(chk)
     rule_array_dimension(chk)
     rule_template_value_lookup(chk)
+    rule_sizeof(chk)
+
+
+def rule_sizeof(chk):
+    """sizeof as a constant: evaluate_constexpr read on SizeOf(T) for every type of the type model (scalars, vectors,
+    matrices, enum, struct, arrays, objects; plain and const). Refusing to fold is always allowed (the expression is then
+    exported and evaluated by the target compiler); a value that IS folded must be the size the targets give the type:
+    the scalar's size for scalars and enums, component size x components for vectors and matrices."""
+    import interp as I
+    import convmodel as CM
+    f = chk.facts
+    fn = f.fn("evaluate_constexpr", TY)
+    if not fn:
+        return
+    u = CM.Universe(f)
+    ext = dict(u.externs())
+    ext["EnumRegistry::get_underlying_scalar"] = lambda a: I.Enum("ScalarType", "UInt32")
+    gs = f.fn("get_size", "rssl_ir", self_ty="ScalarType")
+    ip0 = I.Interp(f, max_depth=4)
+
+    def scalar_size(sc):
+        try:
+            r = ip0.apply(gs, [I.Enum("ScalarType", sc)]) if gs else None
+        except I.Unknown:
+            return None
+        return r.fields["0"] if isinstance(r, I.Enum) and r.variant == "Some" else None
+    bad = None
+    n = folded = 0
+    for name, base in sorted(u.names.items()):
+        for mod in (0, 1):
+            layer = u.base[base]
+            want = None
+            if layer.variant == "Scalar":
+                want = scalar_size(layer.fields["0"].variant)
+            elif layer.variant == "Enum":
+                want = scalar_size("UInt32")
+            elif layer.variant in ("Vector", "Matrix"):
+                sc = u.scalar_of(base)
+                ss = scalar_size(sc.variant) if sc is not None else None
+                dims = [layer.fields["1"]] + ([layer.fields["2"]] if layer.variant == "Matrix" else [])
+                want = None if ss is None else ss * dims[0] * (dims[1] if len(dims) > 1 else 1)
+            mod_ = I.Enum("Module", None, {"type_registry": I.Opaque("type registry"), "enum_registry": I.Opaque("enum registry")})
+            try:
+                r = I.Interp(f, max_depth=6, extern=ext).apply(fn, [I.Enum("Expression", "SizeOf", {"0": CM.tid(base + 1000 * mod)}), mod_])
+            except I.Unknown as e:
+                if "panicking" in str(e):
+                    bad = bad or "sizeof(%s) aborts the constant evaluator (%s)" % (name, str(e)[:60])
+                    n += 1
+                    continue
+                chk.unreadable("C13.sizeof/value", "evaluate_constexpr on SizeOf over the type model", str(e)[:100], where(fn))
+                return
+            n += 1
+            if isinstance(r, I.Enum) and r.variant == "Ok":
+                folded += 1
+                c = r.fields["0"]
+                v = c.fields.get("0") if isinstance(c, I.Enum) else None
+                if want is None or v != want:
+                    bad = bad or "sizeof(%s%s) is folded to %s; %s" % ("const " if mod else "", name, v, "the targets give it %d bytes" % want if want is not None else "the model has no size for this type: it must be left to the target compiler")
+    chk.ob("C13.sizeof/value", bad is None, bad or "%d types, %d folded: every folded sizeof is the type's size on the targets" % (n, folded), where(fn), sample={"types": n, "folded": folded})
+    chk.floor("C13.floor/sizeof-types", folded, 10, "types whose sizeof is folded", where(fn))
 
 
 def rule_template_value_lookup(chk):
